@@ -126,6 +126,17 @@ CLAIMED = {
              "correspondence on well-formed and malformed command lines; py2coq G1 constants.",
         technique="Coq proof (fold over option groups) + command-line correspondence + end-to-end port oracle computed from the raw argv",
         design="3 C10"),
+    "C03": dict(
+        text="Proof (partial): Coq theorems C03_isolation (delete, corrupt, shorten or replace any packets of OTHER flows, add any foreign traffic: the sessions of a flow, "
+             "hence by C04_output_is_union its export, are unchanged -- for every capture), C03_reading_total (without -c no packet, however damaged, can make the reading "
+             "phase fail), C03_no_keys_no_output / C03_missing_secrets / C03_unknown_suite (a flow without usable keys switches decryption off instead of failing and exports "
+             "no application data), C03_failed_record (a record that does not decrypt is dropped: never exported as it is, no invented bytes, cipher state untouched), "
+             "C03_other_records_total; truncation gives a prefix by C08_tls. Closed under the global context. NOT proved: run-level totality of the decrypt phase, the prefix "
+             "claim for a packet lost in the middle, and the QUIC side: decided by the fault enumeration (eleven fault kinds on TLS and QUIC victims among healthy bystanders) "
+             "with byte-exact correspondence of the model including crash outcomes. One open finding (QUIC loss: subsequence, not prefix).",
+        note="Trusted: Coq kernel; models tied by byte-exact correspondence on faulty captures; faults hit payloads and key logs, not the container or L2-L4 headers.",
+        technique="Coq proof (flow projection, per-record case analysis) + fault enumeration with bystander comparison",
+        design="3 C03"),
     "C04": dict(
         text="Proof (TLS over TCP; QUIC by search and correspondence): Coq theorems C04_sessions_as_if_alone (for every capture, every interleaving and every packet q: the "
              "sessions that take q's flow after reading the capture are exactly -- packet buffers, duplicate memories and all -- the sessions obtained from the capture "
